@@ -460,6 +460,17 @@ def run(ctx):
     check_call_arguments(ctx, "C01.ARGS", "C01")
     from ..rules_common import check_effect_tables
     check_effect_tables(ctx, "C01")
+    # regions of the two large functions, selected by what they mention
+    from ..rules_common import check_region_table, statements_mentioning
+    rb_ = prog.method("rrule._iterinfo", "rebuild", "C01.TABLE")
+    check_region_table(ctx, "C01.TABLE", rb_, statements_mentioning({"_bynweekday", "lastmonth"}),
+                       "the nth-weekday mask is rebuilt whenever the month or the year of the period changed, from the month ranges of the period", "rebuild: nth-weekday mask")
+    check_region_table(ctx, "C01.TABLE", rb_, statements_mentioning({"wyearlen", "wnomask", "no1wkst"}),
+                       "ISO week numbers: first week by the 4-day rule relative to WKST, week count from the year length + the offset of 1 January modulo 7, weeks "
+                       "spilling over from / into the neighbouring years", "rebuild: week-number mask")
+    check_region_table(ctx, "C01.TABLE", it, statements_mentioning({"bysetpos", "poslist"}),
+                       "BYSETPOS selects the pos-th (from the end for negative pos) of the period's day x time candidates, skipping positions that do not exist",
+                       "_iter: BYSETPOS selection")
     from ..rules_common import check_presence_tests, ARG_SCOPE
     check_presence_tests(ctx, "C01.PRESENCE", classes=ARG_SCOPE.get("C01", []))
 
